@@ -103,6 +103,10 @@ def hostile_templates():
     """hand-written shapes at the allowed nesting bound (64) and around every recovery point"""
     d = 64
     out = [
+        # entity-like runs with multi-byte letters / digits of other scripts at every position of the three scanners (named, decimal, hex), in text
+        # and in attribute values (directed after the regression run of round 10: seeded change C01-5 was only hit by chance)
+        "<v>&é; &aé; &éa; &ampé; &#xé; &#xaé; &#1é; &#١; &#x١; &中; &a😀; &#x1😀; &١٢;</v>",
+        "<v title=\"&é; &aé; &#xé; &#1é; &中文; &a😀b;\" data-k='&é' mark:m=&aé;/>", "&é", "&aé", "&#xé", "&#9é",
         nest("<view>", "</view>", d, "x"), nest("<view>", "", d, "x"), "</view>" * d,
         nest("<block wx:if=\"{{a}}\">", "</block>", d, "{{b}}"), nest("<block wx:for=\"{{l}}\">", "</block>", d, "{{item}}"),
         "{{ " + nest("(", ")", d, "a") + " }}", "{{ " + nest("[", "]", d, "a") + " }}", "{{ " + nest("{a:", "}", d, "1") + " }}",
